@@ -631,6 +631,8 @@ class Ref(object):
         out = []
         for x in self.v:
             xx = conv(x, tc)
+            if tc == "z" and abs(xx) < 1e-290 and ee.real <= 0:
+                raise UNSPECIFIED("complex zero to a non-positive power")
             try:
                 y = xx ** ee
             except ZeroDivisionError:
@@ -1560,7 +1562,8 @@ def triplets(A):
     out = []
     for j in range(len(colptr) - 1):
         for k in range(colptr[j], colptr[j + 1]):
-            out.append((rowind[k], j, values[k]))
+            if 0 <= k < len(rowind) and k < len(values):     # an invalid CCS is reported by O-ccs
+                out.append((rowind[k], j, values[k]))
     return out
 
 
@@ -1607,7 +1610,7 @@ def value_mismatch(tc, got, want, scale, rtol=RTOL, mask=None, wrap=None):
         err = abs(g - w)
         if wrap is not None:
             err = min(err, abs(err - wrap))
-        s = scale[k]
+        s = max(scale[k], 1e-280)       # subnormal results carry no relative accuracy
         if err != err:
             return (k, g, w, float("inf")), float("inf")
         rel = err / s if s > 0 else float("inf")
